@@ -5,9 +5,12 @@
     {"fn":"compose","net":net,"wb":b,"wc":b}   -> {"toks":[...]}
     {"fn":"lexcompose","text":s}               -> tokens of `lexB text` (to compare with compose)
     {"fn":"roundtrip","text":s,"wb":b,"wc":b}  -> read, composeB, printB, read again: {"ok":net}|{"err":..}
+    {"fn":"frag","text":s,"wb":b,"wc":b}       -> which round-trip theorems cover the netlist read from `text`:
+                                                  {"full":"in"|"out:<first failing hypothesis>","any":...,"subckt":...}
 -/
 import Spydr.Common.Proto
 import Spydr.Eblif.ModelCompose
+import Spydr.Eblif.FragCheck
 
 open Lean Spydr.Eblif Spydr.Proto
 
@@ -140,6 +143,14 @@ def handle (_ : Unit) (j : Json) : Except String (Unit × Json) := do
       let txt := composeText (optsOf j) n
       pure ((), Json.mkObj [("first", netJ n), ("text", Json.str (String.ofList txt)),
                             ("second", resJ (readB txt))])
+  else if fn = "frag" then
+    let t ← getStr j "text"
+    match readB t.toList with
+    | .error _ => pure ((), Json.mkObj [("full", Json.str "out:model-read-fails"), ("any", Json.str "out:model-read-fails"),
+                                        ("subckt", Json.str "out:model-read-fails")])
+    | .ok n =>
+      pure ((), Json.mkObj [("full", Json.str (fragFull (optsOf j) n)), ("any", Json.str (fragAny (optsOf j) n)),
+                            ("subckt", Json.str (fragSubckt (optsOf j) n))])
   else throw s!"unknown fn {fn}"
 
 end Spydr.EblifDrv
